@@ -1,0 +1,5 @@
+//go:build !verif
+
+package storage
+
+func verifFileSystem(string) (FileSystem, bool) { return nil, false }
